@@ -1020,20 +1020,51 @@ func ruleEffect5(c *Ctx) {
 
 func ruleEffect3(c *Ctx) {
 	c.R.Rule("EFFECT-3", 4, "caller-owned environments are never written: outside the Env types themselves and the engine's registration API, Put / RegisterFun / field stores on a *types.Env or *val.Env target an environment that the same function created (NewEnv, Derive, Inherit, conv.*EnvOf, composite literal); Inherit returns a copy (SIBLING-9)")
-	freshEnv := func(body ast.Node, e ast.Expr) (bool, string) {
+	var freshEnv func(body ast.Node, e ast.Expr) (bool, string)
+	depth := 0
+	// freshResult: the k-th result of a module function is an environment that function created, on every return
+	// (nil results — the error paths — are trivially not caller-owned)
+	freshResult := func(ce *ast.CallExpr, k int) (bool, string) {
+		f, _ := c.calleeObj(ce).(*types.Func)
+		fd := c.declOf(f)
+		if fd == nil || fd.Body == nil || depth > 2 {
+			return false, "result of " + c.calleeName(ce)
+		}
+		depth++
+		defer func() { depth-- }()
+		rets := returnsIn(fd.Body)
+		if len(rets) == 0 {
+			return false, "result of " + c.calleeName(ce)
+		}
+		for _, r := range rets {
+			if k >= len(r.Results) {
+				return false, "result of " + c.calleeName(ce)
+			}
+			re := unparen(r.Results[k])
+			if id, ok := re.(*ast.Ident); ok && id.Name == "nil" {
+				continue
+			}
+			if ok, _ := freshEnv(fd.Body, re); !ok {
+				return false, "result #" + fmt.Sprint(k) + " of " + c.calleeName(ce) + " is not an environment it created (" + src(re) + ")"
+			}
+		}
+		return true, "result of " + c.calleeName(ce) + ", which creates it"
+	}
+	freshEnv = func(body ast.Node, e ast.Expr) (bool, string) {
 		e = unparen(e)
 		if ce, ok := e.(*ast.CallExpr); ok {
 			switch nm := c.calleeName(ce); nm {
 			case "types.NewEnv", "val.NewEnv", "types.Env.Derive", "val.Env.Derive", "types.Env.Inherit", "val.Env.Inherit", "conv.ValEnvOf", "conv.TypeEnvOf", "conv.MustValEnvOf", "conv.MustTypeEnvOf":
 				return true, nm
 			}
-			return false, "result of " + c.calleeName(ce)
+			return freshResult(ce, 0)
 		}
 		o := c.objOf(e)
 		if o == nil {
 			return false, src(e)
 		}
 		var defs []ast.Expr
+		defIdx := map[ast.Expr]int{} // multi-value definitions: which result of the call
 		isParam := true
 		ast.Inspect(body, func(x ast.Node) bool {
 			if as, ok := x.(*ast.AssignStmt); ok {
@@ -1044,6 +1075,7 @@ func ruleEffect3(c *Ctx) {
 							defs = append(defs, as.Rhs[i])
 						} else {
 							defs = append(defs, as.Rhs[0])
+							defIdx[as.Rhs[0]] = i
 						}
 					}
 				}
@@ -1067,6 +1099,9 @@ func ruleEffect3(c *Ctx) {
 			switch c.calleeName(ce) {
 			case "types.NewEnv", "val.NewEnv", "types.Env.Derive", "val.Env.Derive", "types.Env.Inherit", "val.Env.Inherit", "conv.ValEnvOf", "conv.TypeEnvOf", "conv.MustValEnvOf", "conv.MustTypeEnvOf":
 			default:
+				if ok, _ := freshResult(ce, defIdx[d]); ok {
+					continue
+				}
 				return false, "defined as " + src(d)
 			}
 		}
